@@ -2,29 +2,67 @@
 
 Exactly one thread runs at a time; before every traced line of the library the running thread
 stops and the schedule function picks who goes next. No hook in /repo is needed."""
-import linecache
+import dis
 import sys
 import threading
 
 FILES = ('license_expression/__init__.py', 'license_expression/_pyahocorasick.py', 'boolean/boolean.py')
 
-MARKERS = [
-    ('start', lambda s: s.startswith('if self.advanced_tokenizer is not None')),
-    ('alloc', lambda s: 'AdvancedTokenizer()' in s and '=' in s),
-    ('add', lambda s: s.startswith('add_item(')),
-    ('make', lambda s: s == 'tokenizer.make_automaton()'),
-    ('publish', lambda s: s == 'self.advanced_tokenizer = tokenizer'),
-    ('use', lambda s: 'advanced_tokenizer.tokenize(expression)' in s),
-]
+ATTR = 'advanced_tokenizer'
+_attr_cache = {}
 
 
-def marker_of(frame):
-    if not frame.f_code.co_filename.endswith(FILES[0]):
+def attr_lines(code):
+    """{line: {'load', 'store'}} for the instructions of `code` that read / write the attribute `advanced_tokenizer`"""
+    key = id(code)          # hashing a code object is slow; library code objects live as long as the module
+    if key not in _attr_cache:
+        d = {}
+        line = None
+        for ins in dis.get_instructions(code):
+            if ins.starts_line is not None:
+                line = ins.starts_line
+            if ins.argval == ATTR:
+                if ins.opname in ('LOAD_ATTR', 'LOAD_METHOD'):
+                    d.setdefault(line, set()).add('load')
+                elif ins.opname == 'STORE_ATTR':
+                    d.setdefault(line, set()).add('store')
+        _attr_cache[key] = d
+    return _attr_cache[key]
+
+
+CALLS = {'__init__': 'alloc', 'add': 'add', 'make_automaton': 'make', 'tokenize': 'use'}
+
+
+def call_marker(frame):
+    """protocol step named by a call into the matcher class: its creation, add(), make_automaton(), tokenize()"""
+    code = frame.f_code
+    if not code.co_filename.endswith(FILES[1]) or code.co_name not in CALLS:
         return None
-    s = linecache.getline(frame.f_code.co_filename, frame.f_lineno).strip()
-    for name, pred in MARKERS:
-        if pred(s):
-            return name
+    if not code.co_qualname.startswith('Trie.'):
+        return None
+    return CALLS[code.co_name]
+
+
+def marker_of(frame, t):
+    """protocol step of the line about to run: read of the shared attribute (once per protocol round), publication
+    (a store to it outside __init__), or the first line of a call into the matcher. Recognised from the bytecode and
+    the call structure, not from the source text, so that equivalent rewrites of the source keep the trace."""
+    if t.entered:
+        m, t.entered = t.entered, None
+        if m == 'use':
+            t.in_round = False
+        return m
+    code = frame.f_code
+    if not code.co_filename.endswith(FILES[0]):
+        return None
+    kinds = attr_lines(code).get(frame.f_lineno)
+    if not kinds:
+        return None
+    if 'store' in kinds and code.co_name != '__init__':
+        return 'publish'
+    if 'load' in kinds and not t.in_round:
+        t.in_round = True
+        return 'start'
     return None
 
 
@@ -40,6 +78,8 @@ class T:
         self.thread = None
         self.at = None          # marker of the line the thread is stopped at
         self.use_obs = None     # (entries, converted) of the tokenizer at the `use` line
+        self.entered = None     # protocol step of the call just entered, reported at its first line
+        self.in_round = False   # between the read of the shared attribute and the use of the matcher
         self.quota = 0          # further line events this thread may pass without handing control back
 
 
@@ -53,9 +93,9 @@ def run(fns, schedule_fn):
     def tracer_for(t):
         def local(frame, event, arg):
             if event == 'line':
-                t.at = marker_of(frame)
+                t.at = marker_of(frame, t)
                 if t.at == 'use':
-                    tok = frame.f_locals.get('advanced_tokenizer')
+                    tok = frame.f_locals.get('self')
                     try:
                         t.use_obs = (len(list(tok.items())), bool(tok._converted))
                     except Exception as e:  # a half-built object
@@ -73,6 +113,9 @@ def run(fns, schedule_fn):
 
         def glob(frame, event, arg):
             if event == 'call' and frame.f_code.co_filename.endswith(FILES):
+                m = call_marker(frame)
+                if m:
+                    t.entered = m
                 return local
             return None
         return glob
